@@ -30,6 +30,32 @@ def unit(f):
                             preamble=bu + " broadcast use lemma_bytes_inj;",
                             subst=[("R6", r'\s*==\s*\*bytes\b', '.arr_eq(bytes)')]))
     I(main, f"impl {F}", Fn("to_bytes", ensures="bytes_val(r@) == self.val()", props=("C11",), preamble=bu))
+    if f == "fq":
+        S_ = "exp.as_ref_spec()@"
+        J_ = "(it.index@ as int)"
+        X_ = "self.val()"
+        I(main, f"impl {F}", Fn(
+            "power", props=("C10",),
+            ensures=f"r.val() == mpow({P}, {X_}, limbs_val({S_}) as nat)",
+            preamble=bu + f" proof {{ assert({S_}.take(0).len() == 0); lemma_p2_pos(0); reveal_with_fuel(mpow, 2); }}",
+            ghost_iter={0: "it"},
+            subst=[("R4", r'\blimb\s*>>', '*limb >>')],
+            loops={0: f"""invariant res.val() == mpow({P}, {X_}, limbs_val({S_}.take({J_})) as nat),
+                            insert.val() == mpow({P}, {X_}, p2((64 * it.index@) as nat) as nat)""",
+                   1: f"""invariant 0 <= {J_} < {S_}.len(), *limb == {S_}[{J_}], 0 <= i <= 64,
+                            res.val() == mpow({P}, {X_}, prefix_val({S_}, {J_}, i as u64) as nat),
+                            insert.val() == mpow({P}, {X_}, (p2((64 * it.index@) as nat) * p2(i as nat)) as nat)"""},
+            loops_begin={0: f"proof {{ lemma_prefix_0({S_}, {J_}); }}",
+                         1: f"broadcast use {f}_abs; let ghost res0 = res; let ghost ins0 = insert; let ghost k_ = i as u64; let ghost x_ = *limb; assert(((x_ >> k_) & 1) <= 1) by(bit_vector);"},
+            loops_end={0: f"lemma_prefix_64({S_}, {J_});",
+                       1: f"""lemma_prefix_step({S_}, {J_}, i as u64);
+                    let e0 = prefix_val({S_}, {J_}, i as u64);
+                    let w = p2((64 * it.index@) as nat) * p2(i as nat);
+                    lemma_mpow_add({P}, {X_}, e0 as nat, w as nat);
+                    lemma_mpow_add({P}, {X_}, w as nat, w as nat);
+                    assert((((*limb >> i) & 1) as int) * w == (if ((*limb >> i) & 1) == 1 {{ w }} else {{ 0 }})) by(nonlinear_arith)
+                        requires ((*limb >> i) & 1) == 0 || ((*limb >> i) & 1) == 1;"""},
+            before_tail=f"assert({S_}.take({S_}.len() as int) =~= {S_});"))
     # ---- src/fields/<f>/arkworks.rs, trait impls checked as inherent impls (R7b)
     hp = f"impl PrimeField for {F}"
     I(ark, hp, Fn("MODULUS", as_const=True, props=("C11", "C02", "C17"), ensures=f"limbs_val({F}::MODULUS.0@) == {P}"), header_out=f"impl {F}")
@@ -48,10 +74,11 @@ def unit(f):
       )
     u = Unit(name=f"fieldx_{f}",
              preludes=[("common.rs", None), ("field_consts.rs", dict(NW=fp["N64"])), ("field_abs.rs", None), ("std_standins.rs", None),
-                       ("le_lemmas.rs", None), ("ark_bigint.rs", None)],
+                       ("le_lemmas.rs", None), ("ark_bigint.rs", None), ("ladder_lemmas.rs", None), ("pow_lemmas.rs", None)],
              items=items, lemmas=lem + FX_LEMMAS, params=fp,
              global_subst=[("R7", r'\bark_ff::BigInt\(', 'BigInt('), ("R7", r'\bSelf::BigInt\b', 'BigInt')])
     u.raw = [("src/error.rs", "enum", "EncodingError")]
+    u.ufcs_fns = ("power",)
     return u
 
 
